@@ -1,6 +1,7 @@
 //! vx-netk: engine E — turmoil-net kernel through the public shim, harness is the wire.
 
 mod backlog;
+mod fixedlat;
 mod life;
 mod mixed;
 mod rules;
@@ -445,6 +446,16 @@ fn main() {
             ];
             let (wall, cap) = tier.pick((Duration::from_secs(20), 3_000_000), (Duration::from_secs(300), 40_000_000));
             run_tcp_configs(&mut rep, c06_configs(tier), wall, cap);
+            {
+                // bounded delay without loss: fixed one-way latency on a FIFO wire, writer
+                // appending while earlier data is in flight (deterministic runs over a grid)
+                let mut d = vx_core::DfsConfig::new("fixed-latency-grid-no-loss", 0);
+                d.wall = wall;
+                let thorough = tier == Tier::Thorough;
+                let st = vx_core::explore_dfs(&d, move |ch| fixedlat::scenario(ch, thorough));
+                rep.violations.extend(st.violations);
+                rep.add_part(st.part);
+            }
             rep.finish();
         }
         "C16" => {
@@ -572,6 +583,22 @@ fn replay(path: &str) {
             all.extend(c16_configs(Tier::Quick));
         }
         _ => {}
+    }
+    if prop == "C06" && scenario.starts_with("c06-fixedlat") {
+        println!("replaying {prop}: {scenario}");
+        let mut ch = vx_core::Chooser::from_choices(&choices);
+        let e = fixedlat::scenario(&mut ch, scenario.contains("tier=thorough"));
+        for l in ch.describe() {
+            println!("  choice {l}");
+        }
+        match e.violation {
+            Some(v) => {
+                println!("VIOLATION clause={} : {}", v.clause, v.detail);
+                std::process::exit(1);
+            }
+            None => println!("no violation on this execution"),
+        }
+        return;
     }
     if prop == "C16" && scenario.starts_with("c16-mixed") {
         println!("replaying {prop}: {scenario}");
